@@ -172,6 +172,22 @@ package types
 //@   pure
 //@   ensures result == uf_b_setHas(s, key, s.$setver)
 
+//@ func (*Set).Keys()
+//@   trusted "mutex-protected Go map abstracted as a function of (set, key, version); Keys lists exactly the members"
+//@   pure
+//@   ensures forall k int :: 0 <= k && k < len(result) ==> uf_b_setHas(s, result[k], s.$setver)
+//@ func (*Set).Delete(keys)
+//@   trusted "mutex-protected Go map abstracted as a function of (set, key, version)"
+//@   modifies s.$setver
+//@ func (*Set).Add(keys)
+//@   trusted "mutex-protected Go map abstracted as a function of (set, key, version)"
+//@   modifies s.$setver
+//@ func NewSet(keys)
+//@   trusted "mutex-protected Go map abstracted as a function of (set, key, version); the new set holds exactly the given keys"
+//@   fresh
+//@   ensures result != nil
+//@   ensures forall k int :: 0 <= k && k < len(keys) ==> uf_b_setHas(result, keys[k], result.$setver)
+
 //@ func (*Map).Load(key)
 //@   trusted "types/map.go (sync.Map port on atomics/unsafe) is outside the verified subset"
 //@   pure
@@ -184,6 +200,14 @@ package types
 //@   requires value != nil
 //@   modifies m.$mapver
 //@   ensures uf_b_mapHas(m, key, m.$mapver) && uf_i_mapVal(m, key, m.$mapver) == iface(value)
+
+//@ func (*Map).Range(f)
+//@   trusted "types/map.go (sync.Map port on atomics/unsafe) is outside the verified subset; the callback is verified as its own unit and is assumed to be called once per entry"
+//@   requires m != nil
+//@   modifies *
+//@ func (*Map).Clear()
+//@   trusted "types/map.go (sync.Map port on atomics/unsafe) is outside the verified subset"
+//@   modifies m.$mapver
 
 //@ func (*Map).Delete(key)
 //@   trusted "types/map.go (sync.Map port on atomics/unsafe) is outside the verified subset"
@@ -222,7 +246,13 @@ package types
 //@   requires c != nil && c.response != nil && c.ResponseHeaders != nil
 //@   modifies *
 //@   ensures [C11.nevertwice] old(c.isDone.v) != 0 ==> result1 != nil && result0 == 0 && calls(http.ResponseWriter.Write) == 0 && calls(http.ResponseWriter.WriteHeader) == 0
+//@   ensures [C11.marksdone]  c.isDone.v != 0
 //@   ensures [C11.once]       old(c.isDone.v) == 0 ==> calls(http.ResponseWriter.Write) == 1 && calls(http.ResponseWriter.WriteHeader) == 1 && before(http.ResponseWriter.WriteHeader, 1, http.ResponseWriter.Write, 1)
+// the "already answered" test and the write are one critical section: two writers cannot both find the response open
+//@   callsite (*HttpContext).IsDone#1
+//@     assert [C11.testlocked] held(c.mu) && $c == c
+//@   callsite http.ResponseWriter.WriteHeader#1
+//@     assert [C11.writelocked] held(c.mu)
 //@ func NewBytesBuffer(buf)
 //@   fresh
 //@   modifies nothing
@@ -231,6 +261,30 @@ package types
 //@   fresh
 //@   modifies nothing
 //@   ensures typeis(result, *StringBuffer)
+
+// ---- request routing (C05): which handler a request reaches is decided on the cleaned path ----------------------
+//@ func (*ServeMux).Handler(r)
+//@   props C05
+//@   requires mux != nil && r != nil && r.URL != nil
+//@   modifies nothing
+//@   ensures [C05.mux.cleaned] calls((*ServeMux).handler) == 1 && arg((*ServeMux).handler, 1, path) == uf_s_CleanPath(r.URL.Path)
+//@   ensures [C05.mux.result]  h == ret((*ServeMux).handler, 1, 0) && pattern == ret((*ServeMux).handler, 1, 1)
+//@ func (*ServeMux).handler(host, path)
+//@   props C05
+//@   requires mux != nil
+//@   modifies nothing
+//@   ensures [C05.mux.default] mux.DefaultHandler != nil ==> h != nil
+//@   ensures [C05.mux.generic] !mux.hosts ==> calls((*ServeMux).match) == 1 && arg((*ServeMux).match, 1, path) == path
+//@   ensures [C05.mux.fallback] !mux.hosts && ret((*ServeMux).match, 1, 0) == nil ==> h == mux.DefaultHandler && pattern == ""
+//@   ensures [C05.mux.matched]  !mux.hosts && ret((*ServeMux).match, 1, 0) != nil ==> h == ret((*ServeMux).match, 1, 0) && pattern == ret((*ServeMux).match, 1, 1)
+//@ func (*ServeMux).match(path)
+//@   props C05
+//@   requires mux != nil
+//@   modifies nothing
+//@   loop 1 invariant forall k int :: 0 <= k && k < $i ==> !uf_b_HasPrefix(path, mux.es[k].pattern)
+//@   ensures [C05.mux.exact]   maphas(mux.m, path) ==> h == mapval(mux.m, path).h && pattern == mapval(mux.m, path).pattern
+//@   ensures [C05.mux.nomatch] !maphas(mux.m, path) && (forall k int :: 0 <= k && k < len(mux.es) ==> !uf_b_HasPrefix(path, mux.es[k].pattern)) ==> h == nil && pattern == ""
+//@   ensures [C05.mux.prefix]  !maphas(mux.m, path) && pattern != "" ==> uf_b_HasPrefix(path, pattern)
 
 // connection wrappers: what their constructors in engine/server.go establish
 //@ spec wscOK(w *WebSocketConn) bool = w != nil && w.EventEmitter != nil && w.Conn != nil
